@@ -1,26 +1,47 @@
 PROP = {
     "level": "exploration",
     "technique": ("runtime monitor: differential execution of KVStore (bbolt) and SQLStore (SQLite) against a "
-                  "reference model + ledger invariants; porcupine linearizability check of ControlTower histories"),
+                  "reference model + ledger invariants; porcupine linearizability check of ControlTower histories "
+                  "with a delay-only interposer on the stores' transaction executors"),
     "level_text": ("PRNG operation sequences (InitPayment, RegisterAttempt with amounts straddling the remaining amount / "
                    "MPP / plain / blinded / mismatching records, SettleAttempt, FailAttempt, Fail, DeletePayment(s), "
                    "DeleteFailedAttempts, fetches; unknown and deleted payments) run on both real stores side by side; "
                    "every call's admit/refuse decision and every returned/fetched MPPayment projection is compared "
                    "between the backends and with a model written from the documented rules, and invariants stated "
                    "directly from the property are evaluated on a ledger of observed results. 2-4 goroutines through the "
-                   "real routing.ControlTower (+ direct DeletePayment) produce client-boundary histories checked for "
-                   "linearizability per payment hash with porcupine."),
+                   "real routing.ControlTower (+ direct DeletePayment(hash, failedHtlcsOnly) and the bulk "
+                   "DeletePayments with all four flag combinations, as the RPC server calls them) produce "
+                   "client-boundary histories checked for linearizability per payment hash with porcupine (the bulk "
+                   "delete is one sub-operation per hash); a third of the histories start all clients at once on "
+                   "freshly initiated / unknown / failed payments with operations admissible in that state. The "
+                   "kvdb.Backend (View/Update/Batch) and the SQL transaction executor (ExecTx) handed to the stores are "
+                   "wrapped: driven by the case PRNG a client yields or sleeps before a transaction and is held after "
+                   "its commit until another client's write has committed (delays only, never inside a transaction), so "
+                   "that calls made of more than one transaction get other clients' transactions between them; the "
+                   "number of histories where that was observed is counted. Model-free clauses on every history: "
+                   "fetched records obey the amount bound and the status function; an attempt admitted and never "
+                   "settled/failed keeps its hash reported in flight and InitPayment refused."),
     "level_note": ("Sampled, not exhaustive. Attempt ids are unique per payment hash in the core units (the SQL schema makes "
                    "them globally unique, the KV store per payment); duplicate ids are exercised in their own unit. "
-                   "Concurrent schedules are the Go runtime's (GOMAXPROCS=4, -race in thorough)."),
+                   "Concurrent schedules are the Go runtime's (GOMAXPROCS=4, -race in thorough) perturbed by the "
+                   "PRNG-drawn pauses at transaction boundaries; where inside a multi-transaction call another client "
+                   "lands is not enumerated. The bulk delete's cross-hash atomicity and its returned count are not "
+                   "verdict-bearing in the concurrent unit (count: KV-vs-SQL in the sequential unit)."),
     "design_ref": "DESIGN.md §3 C16",
     "rule": ("A sequence is non-trivial when at least one attempt was admitted, at least one call was refused and a "
              "terminal status (succeeded/failed) was reported; distinct = distinct sets of (operation, model outcome "
              "class) pairs. A concurrent history is non-trivial when >=2 operations on one hash overlapped in time; "
-             "distinct = distinct (ops per hash, outcome multiset) signatures."),
+             "distinct = distinct (ops per hash, outcome multiset) signatures. The concurrent unit additionally "
+             "requires a minimum number of histories in which a complete write transaction of another client was "
+             "observed between two transactions of one call (interleaved_between_tx, per backend), of holds released "
+             "by another client's commit, and of histories containing the bulk delete overlapping a registration."),
     "assumptions": ["attempt ids are not shared between payment hashes (core units)",
                     "SQLite stands for the SQL backend (Postgres fixtures do not run offline)",
-                    "a porcupine timeout (Unknown) makes that history inconclusive, it is counted, never a violation"],
+                    "a porcupine timeout (Unknown) makes that history inconclusive, it is counted, never a violation",
+                    "a database-busy answer is a rolled-back call (no effect); for the two-step ControlTower.InitPayment "
+                    "it is ambiguous and the history is skipped (counted)",
+                    "the transaction interposer only delays (yield / sleep / hold until another client's commit, capped) "
+                    "outside transactions; it never fails or reorders a call"],
     "race_anchors": ["payments/db/payment.go", "payments/db/payment_status.go", "payments/db/kv_store.go",
                      "payments/db/sql_store.go", "routing/control_tower.go"],
     "eval_counter": "cases",
@@ -54,8 +75,16 @@ PROP = {
             "shards": {"quick": 8, "thorough": 16},
             "watchdog": {"quick": 600, "thorough": 5400},
             "floors": {"quick": {"histories": 1400, "lin_ok": 1300, "histories_with_overlap": 700,
-                                 "eval_conc_invariants": 500},
-                       "thorough": {"histories": 20000, "lin_ok": 19000, "histories_with_overlap": 10000}},
+                                 "eval_conc_invariants": 450, "eval_inflight_kept": 550, "eval_fetched_record": 650,
+                                 "histories_contend": 250, "histories_with_delall_kv": 230,
+                                 "histories_with_delall_sql": 240, "histories_delall_overlaps_reg": 320,
+                                 "interleaved_between_tx": 110, "interleaved_between_tx_kv": 50,
+                                 "interleaved_between_tx_sql": 50, "holds_released_by_commit": 1100},
+                       "thorough": {"histories": 20000, "lin_ok": 19000, "histories_with_overlap": 10000,
+                                    "eval_inflight_kept": 8500, "histories_with_delall_kv": 3600,
+                                    "histories_with_delall_sql": 3700, "histories_delall_overlaps_reg": 5000,
+                                    "interleaved_between_tx": 1500, "interleaved_between_tx_kv": 800,
+                                    "interleaved_between_tx_sql": 600, "holds_released_by_commit": 15000}},
         },
     ],
 }
